@@ -48,3 +48,154 @@ Proof.
       rewrite app_assoc.
       destruct (IHb _ _ cs2 _ H) as (b' & Hle & E). exists b'. split; [lia|exact E].
 Qed.
+
+(* ---- 2. a successful walk survives the creation of directories --------------------------- *)
+
+Lemma is_dir_lt s o : is_dir s o = true -> (o < length (kinds s))%nat.
+Proof.
+  unfold FSModel.is_dir, FSModel.kind_of. intro H. destruct (Nat.lt_ge_cases o (length (kinds s))) as [Hlt|Hge]; [exact Hlt|].
+  rewrite nth_overflow in H by exact Hge. discriminate.
+Qed.
+
+Lemma extends_closed2 s s' : extends s s' -> closed2 s -> closed2 s'.
+Proof. induction 1 as [s|s s' d n _ IH Hd Hl]; intro Hc; [exact Hc|]. apply closed2_add_obj; [apply IH; exact Hc|apply is_dir_lt; exact Hd]. Qed.
+
+Lemma extends_parents s s' : extends s s' -> closed2 s -> forall o, (o < length (kinds s))%nat ->
+  FSModel.parent_of s' o = FSModel.parent_of s o.
+Proof.
+  induction 1 as [s|s s' d n Hext IH Hd Hl]; intros Hc o Ho; [reflexivity|].
+  pose proof (extends_closed2 _ _ Hext Hc) as [_ Hlen'].
+  destruct (extends_frame _ _ Hext) as (_ & _ & Hle & _).
+  unfold FSModel.parent_of, FSModel.add_obj. cbn [FSModel.parents]. rewrite app_nth1 by lia. apply IH; assumption.
+Qed.
+
+Lemma kwalk_q_extends s s' nosym : extends s s' -> closed2 s -> forall b cs cur o,
+  (cur < length (kinds s))%nat -> FSModel.kwalk_q s false nosym b cur cs = WOk o ->
+  FSModel.kwalk_q s' false nosym b cur cs = WOk o.
+Proof.
+  intros Hext Hc. destruct (extends_frame _ _ Hext) as (Hk & Hlk & _ & _). pose proof (extends_parents _ _ Hext Hc) as Hpar.
+  destruct Hc as [(H0 & Hlkc & Hparc) Hlen]. unfold PB in *.
+  assert (Hdir : forall x, (x < length (kinds s))%nat -> is_dir s' x = is_dir s x)
+    by (intros x Hx; unfold FSModel.is_dir; rewrite (Hk x Hx); reflexivity).
+  assert (Hlb : forall x, (x < length (kinds s))%nat -> FSModel.link_body s' x = FSModel.link_body s x)
+    by (intros x Hx; unfold FSModel.link_body; rewrite (Hk x Hx); reflexivity).
+  induction b as [|b IHb].
+  - induction cs as [|c rest IH]; intros cur o Hcur H; [exact H|].
+    cbn [FSModel.kwalk_q FSModel.kbody] in H |- *.
+    change (FSModel.kbody s false nosym None) with (FSModel.kwalk_q s false nosym 0) in *.
+    change (FSModel.kbody s' false nosym None) with (FSModel.kwalk_q s' false nosym 0) in *.
+    rewrite (Hdir cur Hcur). destruct (negb (is_dir s cur)); [discriminate|].
+    destruct (is_nil c || is_dot c); [exact (IH _ _ Hcur H)|].
+    destruct (is_dotdot c).
+    { rewrite (Hpar cur Hcur). apply IH; [|exact H]. destruct (Nat.eqb cur ROOT); [exact H0|apply Hparc, Hcur]. }
+    destruct (lookup s cur c) as [d|] eqn:El; [|discriminate]. rewrite (Hlk _ _ _ El).
+    pose proof (Hlkc _ _ _ El) as Hd. rewrite (Hlb d Hd).
+    destruct (FSModel.link_body s d) as [body|]; [|exact (IH _ _ Hd H)].
+    rewrite andb_false_r in *. destruct nosym; discriminate.
+  - induction cs as [|c rest IH]; intros cur o Hcur H; [exact H|].
+    cbn [FSModel.kwalk_q FSModel.kbody] in H |- *.
+    change (FSModel.kbody s false nosym (Some (FSModel.kwalk_q s false nosym b))) with (FSModel.kwalk_q s false nosym (S b)) in *.
+    change (FSModel.kbody s' false nosym (Some (FSModel.kwalk_q s' false nosym b))) with (FSModel.kwalk_q s' false nosym (S b)) in *.
+    rewrite (Hdir cur Hcur). destruct (negb (is_dir s cur)); [discriminate|].
+    destruct (is_nil c || is_dot c); [exact (IH _ _ Hcur H)|].
+    destruct (is_dotdot c).
+    { rewrite (Hpar cur Hcur). apply IH; [|exact H]. destruct (Nat.eqb cur ROOT); [exact H0|apply Hparc, Hcur]. }
+    destruct (lookup s cur c) as [d|] eqn:El; [|discriminate]. rewrite (Hlk _ _ _ El).
+    pose proof (Hlkc _ _ _ El) as Hd. rewrite (Hlb d Hd).
+    destruct (FSModel.link_body s d) as [body|]; [|exact (IH _ _ Hd H)].
+    rewrite andb_false_r in *. destruct nosym; [discriminate|].
+    apply IHb; [|exact H]. destruct (is_abs body); [exact H0|exact Hcur].
+Qed.
+
+(* ---- 3. below a directory: "" and "." and names of real directories ---------------------- *)
+
+Lemma kwalk_q_dirs s nosym : forall cs b cur c,
+  is_dir s cur = true -> existsb is_dotdot cs = false ->
+  descend_dirs s cur (filter (fun p => negb (noop_part p)) cs) = Some c ->
+  FSModel.kwalk_q s false nosym b cur cs = WOk c.
+Proof.
+  induction cs as [|p rest IH]; intros b cur c Hdir Hdd H.
+  - cbn in H. inversion H; subst. destruct b; reflexivity.
+  - cbn [existsb] in Hdd. apply orb_false_iff in Hdd. destruct Hdd as [Hp Hrest].
+    assert (Hstep : FSModel.kwalk_q s false nosym b cur (p :: rest) =
+                    if is_nil p || is_dot p then FSModel.kwalk_q s false nosym b cur rest
+                    else match lookup s cur p with
+                         | None => FSModel.WErr (FSModel.name_err p)
+                         | Some d => match FSModel.link_body s d with
+                                     | None => FSModel.kwalk_q s false nosym b d rest
+                                     | Some body => if is_nil rest && false then WOk d else if nosym then FSModel.WErr FSModel.E_LOOP
+                                                    else match b with O => FSModel.WBudget
+                                                         | S b' => FSModel.kwalk_q s false nosym b' (if is_abs body then ROOT else cur) (raw_components body ++ rest) end
+                                     end
+                         end).
+    { destruct b; cbn [FSModel.kwalk_q FSModel.kbody]; rewrite Hdir, Hp; cbn [negb]; reflexivity. }
+    rewrite Hstep. cbn [filter] in H. unfold noop_part in H.
+    destruct (is_nil p || is_dot p); cbn [negb] in H; [apply IH; assumption|].
+    cbn [descend_dirs] in H. destruct (lookup s cur p) as [d|]; [|discriminate].
+    destruct (is_dir s d) eqn:Ed; [|discriminate].
+    assert (Hlb : FSModel.link_body s d = None).
+    { unfold FSModel.link_body, FSModel.is_dir in *. destruct (FSModel.kind_of s d); try discriminate; reflexivity. }
+    rewrite Hlb. apply IH; assumption.
+Qed.
+
+(* ---- together ------------------------------------------------------------------------------ *)
+
+Theorem resolution_after_mkdir_all s s' nosym b cs_a cs_r cur o c :
+  closed2 s -> extends s s' -> (cur < length (kinds s))%nat ->
+  FSModel.kwalk_q s false nosym b cur cs_a = WOk o ->             (* the walk of the existing ancestor, old tree *)
+  is_dir s o = true -> existsb is_dotdot cs_r = false ->
+  descend_dirs s' o (filter (fun p => negb (noop_part p)) cs_r) = Some c ->     (* where the creation loop ended, new tree *)
+  FSModel.kwalk_q s' false nosym b cur (cs_a ++ cs_r) = WOk c.
+Proof.
+  intros Hc Hext Hcur Hw Hdir Hdd Hdesc.
+  pose proof (kwalk_q_extends s s' nosym Hext Hc b cs_a cur o Hcur Hw) as Hw'.
+  destruct (kwalk_q_app s' nosym b cs_a cur cs_r o Hw') as (b' & _ & E). rewrite E.
+  apply kwalk_q_dirs; [|exact Hdd|exact Hdesc].
+  destruct (extends_frame _ _ Hext) as (Hk & _ & _ & _). unfold FSModel.is_dir in *. rewrite (Hk o (is_dir_lt _ _ Hdir)). exact Hdir.
+Qed.
+
+(* ---- the path level: an ancestor of the path and what is left of it --------------------------- *)
+
+Lemma raw_components_app_slash x y : raw_components (x ++ SLASH :: y) = raw_components x ++ raw_components y.
+Proof.
+  induction x as [|c x IH]; cbn [app raw_components].
+  - rewrite N.eqb_refl. reflexivity.
+  - rewrite IH. destruct (N.eqb c SLASH); [reflexivity|].
+    pose proof (raw_components_nonempty x) as Hne. destruct (raw_components x) as [|h t]; [contradiction|reflexivity].
+Qed.
+
+(* every item of the ancestors iterator splits the path at one of its slashes, or is ("." , whole path) *)
+Lemma anc_iter_shape inner : forall fuel limit a r, In (a, r) (anc_iter fuel inner limit) ->
+  (exists pre rest, inner = pre ++ SLASH :: rest /\ a = (if is_nil pre then [SLASH] else pre) /\
+                    r = (if is_nil rest then None else Some rest)) \/
+  (a = [DOT] /\ r = (if is_nil inner then None else Some inner)).
+Proof.
+  induction fuel as [|f IH]; intros limit a r Hin; cbn [anc_iter] in Hin; [destruct Hin|].
+  set (hay := match limit with None => inner | Some i => firstn i inner end) in *.
+  destruct (rindex_slash hay) as [idx|] eqn:Er.
+  - destruct Hin as [E|Hin].
+    + inversion E; subst. left. destruct (rindex_slash_some _ _ Er) as (Hlt & Hnth & _).
+      assert (Hlt' : (idx < length inner)%nat).
+      { unfold hay in Hlt. destruct limit as [i|]; [rewrite firstn_length in Hlt; lia|exact Hlt]. }
+      assert (Hnth' : nth idx inner 0 = SLASH).
+      { unfold hay in Hnth, Hlt. destruct limit as [i|]; [|exact Hnth].
+        rewrite firstn_length in Hlt. rewrite <- Hnth. symmetry.
+        rewrite <- (firstn_skipn i inner) at 2. rewrite app_nth1 by (rewrite firstn_length; lia). reflexivity. }
+      exists (firstn idx inner), (skipn (S idx) inner). split; [|split].
+      * rewrite <- Hnth'. rewrite <- (skipn_nth_cons 0 inner idx Hlt'). symmetry. apply firstn_skipn.
+      * reflexivity.
+      * rewrite (skipn_nth_cons 0 inner idx Hlt'), Hnth'. cbn [beq tl].
+        rewrite N.eqb_refl. cbn [andb]. destruct (skipn (S idx) inner); reflexivity.
+    + destruct (anc_end _); [destruct Hin|]. eapply IH. exact Hin.
+  - destruct Hin as [E|[]]. inversion E; subst. right. split; reflexivity.
+Qed.
+
+Lemma existsb_dotdot_filter cs : existsb is_dotdot (filter (fun p => negb (noop_part p)) cs) = existsb is_dotdot cs.
+Proof.
+  induction cs as [|p cs IH]; [reflexivity|]. cbn [filter existsb].
+  destruct (noop_part p) eqn:En; cbn [negb].
+  - rewrite IH. unfold noop_part in En. apply orb_true_iff in En. destruct En as [En|En].
+    + destruct p; [reflexivity|discriminate].
+    + unfold is_dot in En. apply beq_true_iff in En. subst p. reflexivity.
+  - cbn [existsb]. rewrite IH. reflexivity.
+Qed.
